@@ -83,6 +83,7 @@ func (r *schedReader) Read(p []byte) (int, error) {
 
 type csvConf struct {
 	Delim     string              `json:"delim,omitempty"`
+	DelimByte int                 `json:"delim_byte,omitempty"` // any byte value (JSON cannot carry bytes >= 0x80 in Delim)
 	EmptyNull bool                `json:"empty_null,omitempty"`
 	IgnoreEmp bool                `json:"ignore_empty,omitempty"`
 	Headers   []string            `json:"headers,omitempty"`
@@ -94,6 +95,9 @@ type csvConf struct {
 }
 
 func (c csvConf) delim() byte {
+	if c.DelimByte > 0 {
+		return byte(c.DelimByte)
+	}
 	if c.Delim == "" {
 		return ','
 	}
@@ -102,8 +106,8 @@ func (c csvConf) delim() byte {
 
 func (c csvConf) funcs() []csv.ConfigFunc {
 	var f []csv.ConfigFunc
-	if c.Delim != "" {
-		f = append(f, csv.Delimiter(c.Delim[0]))
+	if c.Delim != "" || c.DelimByte > 0 {
+		f = append(f, csv.Delimiter(c.delim()))
 	}
 	if c.EmptyNull {
 		f = append(f, csv.EmptyNull(true))
@@ -503,6 +507,16 @@ func genDoc(gen, param string) []byte {
 			fmt.Fprintf(&sb, "t%d,%d\n", i, 4+i)
 		}
 		return []byte(sb.String())
+	case "bytes":
+		// documents with bytes that are not valid UTF-8; 'D' in the template stands for the delimiter byte atoi(0)
+		tmpl := []string{
+			"xDy\nRen\xe9D1\n\xfcberD2\n",
+			"aDb\n\xff\xfeD\x80\n\xc3D\xa9\n",
+			"nDm\n1D2\n3D4\n",
+			"qDr\n\"a\xe9Db\"D\xe9\n\"\"D\"\xff\n\"\n",
+			"sDtDu\r\n\xa7D\xa7\xa7D\r\n",
+		}[atoi(1)]
+		return []byte(strings.ReplaceAll(tmpl, "D", string([]byte{byte(atoi(0))})))
 	case "enumcard":
 		// one column x with k distinct values, every value once and then every value again
 		k := atoi(0)
@@ -777,6 +791,16 @@ func c12Run(ctx *core.Ctx) {
 			}
 		}
 	}
+	// ---- part 4d: any single-byte delimiter (control characters, DEL, bytes >= 0x80) with cells that are not valid UTF-8
+	for _, d := range []int{';', '\t', '|', 0x01, 0x7f, 0x80, 0xa7, 0xe9, 0xfe, 0xff} {
+		for v := 0; v < 5; v++ {
+			for _, k := range []int{0, 1, 2, 3, 5} {
+				if ctx.Mine() {
+					exec(csvCase{Gen: "bytes", Doc: fmt.Sprintf("%d,%d", d, v), Conf: csvConf{DelimByte: d}, Chunk: k}, "delimiters-and-bytes", true)
+				}
+			}
+		}
+	}
 	// ---- part 4c: enum columns at the cardinality limit (255 distinct values fit, more must be an error)
 	for _, k := range []int{254, 255, 256, 257} {
 		for _, chunk := range []int{0, 7} {
@@ -802,6 +826,7 @@ func c12Configs(ctx *core.Ctx, exec func(csvCase, string, bool)) {
 		"x,y\n1,a\n2,b\n", "x,y\n1,\n,b\n", "x,y\n\n1,a\n\n", "x\n\na\n\n", "x\n1\n\n2\n", "x,x\n1,2\n", "x,,x\n1,2,3\n", ",\n1,2\n", "x,y\n", "x,y", "x\n\"\"\n",
 		"a,a,a0\n1,2,3\n", "x0,x,x,x1\n1,2,3,4\n", "x,x,x,x0,x1\n1,2,3,4,5\n",
 		"n\n9223372036854775807\n-9223372036854775808\n", "n\n9223372036854775808\n1\n", "n\n9999999999999999999\n", "n\n-9223372036854775809\n", "n\n+5\n-0\n007\n", "n\n1e3\n0x10\n1_0\n",
+		"x,y\r\n\r\n1,a\r\n\r\n2,b\r\n", "x\r\n\r\na\r\n\r\n", "x,y\r\n1,a\r\n\r\n",
 		"v\n-0\n1.5\n", "v\n1.5\n-0\n", "v\n-00\n0.5\n-0\n", "v\n0.9222122589217269\n9.836716240198795\n", "v\n0\n-0\n",
 		"b\nT\nf\n0\n", "b\nTrue\nFALSE\n", "b\nyes\nno\n", "v\n inf\n", "v\nInf\n-inf\nNaN\n", "v\n1.5 \n",
 		"x,y\n1.5,true\n,false\n", "x,y\ntrue,1\n1,0\n", "x,y\n1,\"a\nb\"\n2,\"c\"\"d\"\n", "x,y\r\n1,a\r\n", "x,y\n1,2,3\n", "x,y\n1\n", "e,f\na,1\nb,2\na,\n",
@@ -844,7 +869,7 @@ func init() {
 		Level: "model_checking",
 		Rule: "case = (document, configuration, read schedule). Documents are generated from the RFC 4180 grammar (1-2 columns, 0-2 data rows below the header, every cell from a 9-14 element alphabet of unquoted/quoted/escaped cells, LF or CRLF, final line break or not, 1-4 delimiters); " +
 			"read schedules are enumerated by deviations from the default single read: all schedules with <= 2 (quick) / 3 (thorough) cut points, uniform k-byte readers, EOF with or after the last data; for documents of <= 11 (13) bytes ALL 2^(L-1) fragmentations, through ReadCSV and through the real scanner with initial buffer capacity 1,2,3,4,8 (overlay seam); " +
-			"configuration product (EmptyNull, IgnoreEmptyLines, Headers, Types, EnumValues, RenameDuplicateColumns, MissingColumnNameAlias) on 38 documents (incl. duplicate headers next to genuine x0/x1 headers and numeric edge cells: 19-digit integers around MaxInt64, signs, exponents, spellings of booleans, Inf/NaN); long fields 1015..4100 bytes with escaped quotes around the buffer boundaries; one row of 5000..140000 bytes followed by 0..400 short rows; enum columns with 254..257 distinct values; RowCountHint across the 1000-row resize. " +
+			"configuration product (EmptyNull, IgnoreEmptyLines, Headers, Types, EnumValues, RenameDuplicateColumns, MissingColumnNameAlias) on 41 documents (incl. duplicate headers next to genuine x0/x1 headers and numeric edge cells: 19-digit integers around MaxInt64, signs, exponents, spellings of booleans, Inf/NaN); long fields 1015..4100 bytes with escaped quotes around the buffer boundaries; one row of 5000..140000 bytes followed by 0..400 short rows; enum columns with 254..257 distinct values; 10 delimiter bytes (control characters, DEL, >= 0x80) with cells that are not valid UTF-8; RowCountHint across the 1000-row resize. " +
 			"Oracles: result(schedule) = result(single read); result = reference parser + type inference. Non-trivial = quoted cells or >= 2 data rows, and every tiny/long/config case; distinct by case content.",
 		Assumptions: []string{
 			"reference parser model/csv.go (state machine over the whole document) and type inference by strconv.Atoi/ParseFloat/ParseBool in that order; a CRLF inside a quoted field may be returned verbatim (RFC 4180) or as LF (encoding/csv); bare CR is not generated",
